@@ -12,8 +12,9 @@ LEVEL = "exploration"
 RULE = ("case = (cyclic block graph built from templates, inputs per cycle): 'false' loops (block graph cyclic, bit graph "
         "acyclic: a stage chain alternating between 2-3 blocks through disjoint slices / struct fields / connections / "
         "child components), 'ring' true loops S_i = F_i(S_{i-1}) whose composed map G is classified by brute force over "
-        "the <=3-bit loop value (no fixed point -> must raise; only fixed-point attractors -> must not raise; mixed -> "
-        "only 'returned => stable'), and rings containing an update_once block; run under DefaultPassGroup and Mamba2020 "
+        "the <=3-bit loop value (no fixed point -> must raise; otherwise only 'returned => stable': a ring with fixed "
+        "points may legitimately be reported because several in-flight values can rotate forever under a sequential "
+        "sweep), and rings containing an update_once block; run under DefaultPassGroup and Mamba2020 "
         "(cyclic-capable) and Simple/HeuTopo/Unroll (must reject). Obligations: on return every non-ff block re-run "
         "alone changes nothing; false loops equal the reference fixed point; must-raise cases raise UpblkCyclicError; "
         "a 20 s SIGALRM watchdog turns a hang into a violation. non-trivial = SCC of >=2 blocks whose carrying signals "
@@ -21,8 +22,8 @@ RULE = ("case = (cyclic block graph built from templates, inputs per cycle): 'fa
 ASSUMPTIONS = [
   "ring classification is by exhaustive evaluation of the composed loop map on all loop values (<= 8) for the inputs of "
   "each cycle, using the reference evaluator",
-  "'must not raise' for rings relies on: every in-flight value reaches a fixed point of G within 8 applications, each "
-  "taking at most k sweeps (k<=4 blocks) -- far below pymtl3's 100-iteration bound",
+  "'must not raise' is asserted only for false loops: a stage chain of <=7 stages plus its net blocks settles within "
+  "<=~15 sweeps in any sweep order, far below pymtl3's 100-iteration bound; for true rings a report is always accepted",
   "wall-clock is used only as a 20 s hang watchdog (evaluation normally takes milliseconds)",
 ]
 QUICK_S = 80
@@ -248,7 +249,10 @@ def run_pass(design, meta, seq, which, rseed, classes_per_cycle, ref_snaps):
       try:
         s.eval_comb()
       except UpblkCyclicError as ex:
-        if cls in ("nofix", "mixed"): return None      # reported; later cycles are meaningless after an abort
+        # a ring that has fixed points may still oscillate forever under the SCC's sequential sweep order
+        # (values of several "generations" rotate around the ring), so a report is legitimate for every
+        # true loop; only false loops (bit-level acyclic) must never be reported
+        if cls in ("nofix", "mixed", "convergent"): return None
         return (f"{which}:{meta['family']}:{cls}:spurious_cyclic_error", f"cycle {t}: {str(ex)[:200]}")
       if cls == "nofix":
         return (f"{which}:ring:nofix:returned_without_error", f"cycle {t}: no stable assignment exists but evaluation returned")
@@ -302,7 +306,7 @@ def judge(case, stats=None):
 
 def run_shard(ctx):
   @seed(ctx.hseed())
-  @ctx.settings(ctx.n(640, 20000))
+  @ctx.settings(ctx.n(3200, 60000))
   @given(cases())
   def t(case):
     if ctx.out_of_time(): return
